@@ -3,10 +3,12 @@ package main
 import (
 	"encoding/json"
 	"fmt"
+	"github.com/Vedant9500/WTF/internal/embedding"
 	"math"
 	"math/rand"
 	"os"
 	"strings"
+	"unicode"
 
 	"github.com/Vedant9500/WTF/internal/database"
 	"github.com/Vedant9500/WTF/internal/nlp"
@@ -304,7 +306,76 @@ func engRun(c *engCase, cmds []database.Command, dir string) {
 		c.Extra["cached_after_refresh"] = projectResults(rdb.Database, rdb.SearchWithOptionsAndCache(q, o))
 	}()
 	c.Extra["legacy_pipeline"] = projectResults(db, db.SearchWithPipelineOptions(q, o))
+	engRespelled(c, db, q, o)
 	c.Extra["search"] = projectResults(db, db.Search(q, o.Limit))
+}
+
+func asciiUpper(s string) string {
+	b := []byte(s)
+	for i, ch := range b {
+		if ch >= 'a' && ch <= 'z' {
+			b[i] = ch - 32
+		}
+	}
+	return string(b)
+}
+
+// engRespelled: two more paths asked twice, the second time with the query in another spelling (ASCII capitals, other
+// whitespace): (1) the pipeline search behind `wtf pipeline`, with the first words of a pipeline entry's description as the
+// query; (2) the universal search with a semantic index attached whose vocabulary holds the query's words, two compound
+// words ("read-only", "node.js") included. The two answers of each pair must be the same.
+func engRespelled(c *engCase, db *database.Database, q string, o database.SearchOptions) {
+	defer func() {
+		if rec := recover(); rec != nil {
+			c.Note = "panic in respelled run"
+		}
+	}()
+	n := len(db.Commands)
+	var phrase []string
+	for pass := 0; pass < 2 && phrase == nil; pass++ {
+		for i := range db.Commands {
+			ws := strings.Fields(db.Commands[i].Description)
+			if len(ws) >= 2 && (pass == 1 || database.VerifIsPipeline(&db.Commands[i])) {
+				if len(ws) > 3 {
+					ws = ws[:3]
+				}
+				phrase = ws
+				break
+			}
+		}
+	}
+	if phrase != nil {
+		po := database.SearchOptions{Limit: n + 5, AllPlatforms: true, PipelineBoost: o.PipelineBoost}
+		c.Extra["pipe_phrase"] = projectResults(db, db.SearchWithPipelineOptions(strings.Join(phrase, " "), po))
+		c.Extra["pipe_phrase_respelled"] = projectResults(db, db.SearchWithPipelineOptions("  "+asciiUpper(strings.Join(phrase, " \t "))+" ", po))
+	}
+	// semantic index: deterministic vectors from the words themselves
+	vec := func(w string, salt int) []float32 {
+		rr := rand.New(rand.NewSource(int64(len(w))*7919 + int64(salt)))
+		for _, ch := range []byte(w) {
+			rr = rand.New(rand.NewSource(rr.Int63() ^ int64(ch)))
+		}
+		v := make([]float32, 5)
+		for i := range v {
+			v[i] = float32(rr.NormFloat64())
+		}
+		return v
+	}
+	q2 := q + " read-only node.js"
+	idx := &embedding.Index{Dimension: 5, WordVectors: map[string][]float32{}}
+	for _, w := range strings.Fields(strings.ToLower(q2)) {
+		idx.WordVectors[w] = vec(w, 1)
+		for _, piece := range strings.FieldsFunc(w, func(ch rune) bool { return !unicode.IsLetter(ch) && !unicode.IsNumber(ch) }) {
+			idx.WordVectors[piece] = vec(piece, 1)
+		}
+	}
+	for i := range db.Commands {
+		idx.CmdEmbeddings = append(idx.CmdEmbeddings, vec(db.Commands[i].Command, 2+i))
+	}
+	edb := database.VerifFresh(db.Commands)
+	edb.VerifSetEmbeddingIndex(idx)
+	c.Extra["emb"] = projectResults(edb, edb.SearchUniversal(q2, o))
+	c.Extra["emb_respelled"] = projectResults(edb, edb.SearchUniversal(asciiUpper(q)+" Read-Only NODE.JS", o))
 }
 
 // engVariants: the request with exactly one option changed, one variant per option
